@@ -71,6 +71,16 @@ def run(ctx):
                     a, b = rng.sample(range(6), 2)
                     connect(m.select(nodes=[a]), m.select(nodes=[b]), rng.choice([IonotropicSynapse, TestSynapse])())
                     hist.append(f"connect {a}->{b}")
+            elif kind == "padded":
+                # a branch WITH children that is shorter than its level's longest branch (its slots
+                # in the solver's index structure are padded), reached by set_ncomp or directly
+                if rng.random() < 0.5:
+                    m = jx.Cell([jx.Branch([comp] * 4) for _ in range(5)], parents=[-1, 0, 0, 1, 1])
+                    m.branch(1).set_ncomp(2)
+                    hist.append("5 x 4 compartments, branch(1).set_ncomp(2)")
+                else:
+                    m = jx.Cell([jx.Branch([comp] * c) for c in [2, 1, 3, 2, 2]], parents=[-1, 0, 0, 1, 1])
+                    hist.append("counts [2,1,3,2,2]")
             else:
                 nb = rng.randint(1, 3)
                 m = jx.Cell([jx.Branch([comp] * rng.randint(1, 3)) for _ in range(nb)], parents=simlib.rand_parents(rng, nb))
@@ -107,12 +117,18 @@ def run(ctx):
     def simulate(m):
         with quiet():
             p = m.get_parameters()
-            out = np.asarray(jx.integrate(m, p, delta_t=0.025, voltage_solver="jax.sparse"))
+            outs = [np.asarray(jx.integrate(m, p, delta_t=0.025, voltage_solver="jax.sparse"))]
+            for vs in ("jaxley.stone", "jaxley.thomas"):
+                try:
+                    outs.append(np.asarray(jx.integrate(m, p, delta_t=0.025, voltage_solver=vs)))
+                except (AssertionError, NotImplementedError, ValueError):
+                    outs.append(np.zeros((1, 1)))       # this backend refuses the structure
+            out = np.concatenate([o.reshape(-1) for o in outs])
             g = jax.grad(lambda q: jnp.sum(jx.integrate(m, q, delta_t=0.025, voltage_solver="jaxley.thomas" if type(m).__name__ != "Network" else "jax.sparse") ** 2) * 1e-4)(p)
         return out, [np.asarray(x) for x in jax.tree_util.tree_leaves(g)]
 
-    kinds = ["cell", "swc", "network", "cell", "network", "swc"]
-    for hi in range(ctx.budget(6, 40)):
+    kinds = ["padded", "cell", "swc", "network", "padded", "network", "swc", "cell"]
+    for hi in range(ctx.budget(8, 40)):
         kind = kinds[hi % len(kinds)]
         try:
             m, hist = make(kind)
@@ -174,7 +190,7 @@ def run(ctx):
     for v in viol:
         v.setdefault("finding_class", None)
     return {"evaluations": evals, "distinct_nontrivial": len(distinct),
-            "rule": "modules produced by random construction / editing histories (hand-built cells, SWC cells with radius-generating functions incl. set_ncomp, networks with synapses; channels, groups, trainables, stimuli, clamps, recordings): pickle round trip and deepcopy; canonical snapshot of all tables, bit-identical simulation, equal gradients, no mutable container shared by id, edits of the copy leave the original's tables and simulation unchanged; distinct by (module kind, history)",
+            "rule": "modules produced by random construction / editing histories (hand-built cells incl. a parent branch shorter than its level's longest, SWC cells with radius-generating functions incl. set_ncomp, networks with synapses; channels, groups, trainables, stimuli, clamps, recordings): pickle round trip and deepcopy; canonical snapshot of all tables, bit-identical simulation on all three voltage solvers, equal gradients, no mutable container shared by id, edits of the copy leave the original's tables and simulation unchanged; distinct by (module kind, history)",
             "samples": samples, "violations": viol[:20]}
 
 
